@@ -7,12 +7,23 @@ import pipeline
 import talgen
 
 PID = 'C06'
-PROOF_MODULES = ['ChamProofs.Props.C06', 'ChamProofs.Ties', 'ChamProofs.Props.C06Regex', 'ChamProofs.Props.C06Loop', 'ChamProofs.Props.C06Parts']
+PROOF_MODULES = ['ChamProofs.Props.C06', 'ChamProofs.Ties', 'ChamProofs.Props.C06Regex', 'ChamProofs.Props.C06Loop', 'ChamProofs.Props.C06Parts', 'ChamProofs.Props.C06Text']
 THEOREMS = ['ChamVerif.undouble_no_dollar', 'ChamVerif.undouble_pair', 'ChamVerif.scan_append', 'ChamVerif.C06_own_brace',
             'ChamVerif.tie_builder_defaults', 'ChamVerif.C06Loop.tie_bracesReq', 'ChamVerif.C06Loop.star_any', 'ChamVerif.C06Loop.matchAt_shape',
             'ChamVerif.C06Loop.search_braces', 'ChamVerif.C06Loop.search_no_dollar', 'ChamVerif.C06Loop.candidate_round',
             'ChamVerif.C06Loop.C06_candidate_own_brace', 'ChamVerif.C06Loop.C06_interp_step',
-            'ChamVerif.C06Parts.C06_parts_text_lit', 'ChamVerif.C06Parts.C06_parts_text_expr']
+            'ChamVerif.C06Parts.C06_parts_text_lit', 'ChamVerif.C06Parts.C06_parts_text_expr',
+            'ChamVerif.C06Loop.tie_entity2',
+            'ChamVerif.C06Loop.decodeEntities_no_amp',
+            'ChamVerif.C06Loop.C06_interp_step_gen',
+            'ChamVerif.C06Loop.C06_text_expr_text',
+            'ChamVerif.C06Loop.C06_dollar_run_even',
+            'ChamVerif.C06Loop.C06_dollar_run_odd',
+            'ChamVerif.C06Loop.undouble_replicate',
+            'ChamVerif.C06Loop.C06_text_parts',
+            'ChamVerif.C06Parts.C06_three_parts_render',
+            'ChamVerif.C06Parts.C06_interp_value',
+            'ChamVerif.C06Parts.C06_interp_text_escaped']
 LEVEL_TEXT = ('Proved in Lean: the bracket/quote scanner the model uses to reject candidates is compositional (scan_append) and therefore an '
               'expression with balanced brackets and closed string literals followed by "}" and anything else is certainly invalid '
               '(C06_own_brace): among the candidates "${ e } … }" none longer than the one ending at the expression\'s own closing brace can be '
@@ -25,7 +36,7 @@ LEVEL_TEXT = ('Proved in Lean: the bracket/quote scanner the model uses to rejec
               'every e and every post — whatever braces they contain —, if the longer candidates are rejected with an ExpressionError and e compiles, '
               'the loop returns exactly e and consumes exactly "${e}" (C06_candidate_own_brace, induction over the "}" of post; non-vacuous: the '
               'premises are kernel-evaluated for a concrete text on the regenerated regexes), and compileInterp yields the literal, the expression part '
-              'and the parts of post (C06_interp_step); rendering the parts copies a literal and replaces an expression part by the converted value of exactly that expression, in order (C06_parts_text_lit / _expr). Still by correspondence only: the optional-braces regex ($name), entity decoding inside '
+              'and the parts of post (C06_interp_step); rendering the parts copies a literal and replaces an expression part by the converted value of exactly that expression, in order (C06_parts_text_lit / _expr); all of this for both settings of the entity-decoding step (the real call decodes: an expression without "&" is not changed by it, decodeEntities_no_amp on the regenerated entity regex). A whole text of literal runs without "$" and any number of ${e} parts is split into exactly those literals and expressions, in order, each token at its own offset (C06_text_parts, induction over the parts); a run of "$" before "${" follows the parity rule: 2j dollars give j literal ones and a live expression, 2j+1 give j+1 literal ones and the braces are ordinary text (C06_dollar_run_even / _odd, undouble_replicate); the value of the interpolation node for text-expression-text is pre ++ value ++ post, the expression evaluated once with __token at it, and a string value is inserted escaped (C06_interp_value, C06_interp_text_escaped). Still by correspondence only: the optional-braces regex ($name), entity decoding inside '
               'expressions, the parity rule for a run of "$" before "${", and the premise "longer candidates are rejected" for the Python grammar '
               '(ast.parse is the judge there; differential-tested every run). A constructive oracle builds texts from part lists in every '
               'interpolation context and under every on/off switch.')
